@@ -32,7 +32,8 @@ ASSUMPTIONS = [
     "convert() of a string with a decimal fraction returns a double: the compared value is that double snapped "
     "to the decimal grid 10^-k of the input's longest fraction (k <= 6, value < 10^8) when it lies within 4 ulp "
     "of a grid point, otherwise its exact rational; strings without fraction are compared exactly "
-    "(at most 15 digits per number)",
+    "(at most 15 digits per number); a mutated string whose fraction is finer than 64 ulp of its value is checked "
+    "by the oracle only",
     "the reason of a ValueError is classified by key words of its message (fraction / calendar / at least one / "
     "other = syntax); the wording itself is not compared",
 ]
@@ -291,7 +292,7 @@ def _sep(rng):
 
 def scenarios(rng, tier):
     big = tier != 'quick'
-    scale = 22 if big else 1
+    scale = 30 if big else 4
     ops = []
     # fixed seeds: the literal examples of the documentation and the property text
     fixed = ['2m', '20h15m10', '2d 12h', '1.25h', '1d2h3m4.5s', 'P1DT2H3M4.5S', '72H', '', 'P1Y', 'PT1M', 'P1M',
@@ -310,7 +311,7 @@ def scenarios(rng, tier):
         if rng.random() < 0.15:
             ops.append(['period', n])
     # dense windows: every integer in +-70 of a few boundaries
-    for b in rng.sample(_boundaries(), 40 if big else 6):
+    for b in (_boundaries() if big else rng.sample(_boundaries(), 10)):
         for n in range(max(0, b - 70), b + 71):
             ops.append(['timestr', n, 3, ''])
             ops.append(['approx', n, ''])
@@ -402,6 +403,11 @@ def _num_reply(x, k=0):
     return f'ok f{f.numerator}/{f.denominator}'
 
 
+def _comparable(x, k):
+    """can the double x be compared exactly with a decimal of k places? (grid well above the float resolution)"""
+    return k == 0 or Fraction(1, 10 ** k) > 64 * Fraction(math.ulp(x))
+
+
 def _call(fn, *args):
     try:
         return 'ret', fn(*args)
@@ -421,6 +427,11 @@ def run_impl(scn):
         if kind == 'convert':
             text = op[1]
             k, r = _call(convert, text)
+            if k == 'ret' and not _comparable(r, _fracdepth(text)):
+                # (only mutated strings get here) finer than the double can resolve: oracle only
+                obs.append(('ret', r, type(r).__name__))
+                tags.append('convert:ok:not-compared')
+                continue
             lines.append('timeunits convert ' + enc(text))
             if k == 'ret':
                 trace.append(_num_reply(r, _fracdepth(text)))
@@ -435,6 +446,10 @@ def run_impl(scn):
         elif kind == 'period':
             v = op[1]
             k, r = _call(time_period, v)
+            if k == 'ret' and isinstance(v, str) and not _comparable(r, _fracdepth(v)):
+                obs.append(('ret', r, type(r).__name__))
+                tags.append('period:str:not-compared')
+                continue
             lines.append('timeunits period ' + enc(v))
             if k == 'ret':
                 trace.append('ok n' if r is None else _num_reply(r, _fracdepth(v) if isinstance(v, str) else 0))
